@@ -81,4 +81,55 @@ CHECKS = {
         "histories <= 5 and RemoteStore against a served store. Partial: Flask/werkzeug/WSGI are third-party parameters."),
   note=("Trusted: Lean kernel; extract.py's ast reading of the view functions; Flask test client as the transport."),
  ),
+ "C01": dict(
+  text=("Theorems in Props/C01.lean over the evaluator model and the reference interpretation (see evidence for the obligations discharged); the model is tied "
+        "to the code by comparing full outcomes and call logs of generated queries (typed arguments, defaults, variadic, links to depth 3, namespaces, state "
+        "variables, sub-evaluations, input values, extra parameters) with the evaluator model and with the Lean reference interpretation; the oracle is an "
+        "independent Python fold over the parsed query."),
+  note='Trusted: Lean kernel; the hand-written evaluator model LiquerModel/Eval.lean + Vocab.lean + Value.lean and the reference interpretation Ref.lean (tied to Context.evaluate/evaluate_action/evaluate_parameter/apply, parse_argv and the argument parsers by differential correspondence over generated queries and histories, not proved about Python); command signatures regenerated from the live registry; vocabulary semantics written twice; the cache is the KV specification at evaluator states (back-ends tied to it by C13); oracle harness/oracle_ref.py.',
+ ),
+ "C04": dict(
+  text=("Sound (every data entry equals the reference interpretation of its key) as an invariant of every history, and evaluation over a Sound cache refines "
+        "the reference interpretation (Props/C04.lean, as far as discharged — see evidence). Correspondence: histories of evaluations / input values / extra "
+        "parameters / removals / cleans on 16 cache configurations vs the evaluator model (12 of them modelled: keep-data, replace-record and NoCache "
+        "variants); oracle: every evaluation repeated with no cache in a fresh context."),
+  note='Trusted: Lean kernel; the hand-written evaluator model LiquerModel/Eval.lean + Vocab.lean + Value.lean and the reference interpretation Ref.lean (tied to Context.evaluate/evaluate_action/evaluate_parameter/apply, parse_argv and the argument parsers by differential correspondence over generated queries and histories, not proved about Python); command signatures regenerated from the live registry; vocabulary semantics written twice; the cache is the KV specification at evaluator states (back-ends tied to it by C13); oracle harness/oracle_ref.py.',
+ ),
+ "C05": dict(
+  text=("served_is_fresh (= Sound over histories) and not_admitted (failed, volatile, cache-disabled results and evaluations with injected input never gain "
+        "data) in Props/C05.lean as far as discharged; correspondence as C04 with the complete data-bearing cache content compared after every operation; the "
+        "oracle lists the cache after every operation and re-evaluates every served key without cache."),
+  note='Trusted: Lean kernel; the hand-written evaluator model LiquerModel/Eval.lean + Vocab.lean + Value.lean and the reference interpretation Ref.lean (tied to Context.evaluate/evaluate_action/evaluate_parameter/apply, parse_argv and the argument parsers by differential correspondence over generated queries and histories, not proved about Python); command signatures regenerated from the live registry; vocabulary semantics written twice; the cache is the KV specification at evaluator states (back-ends tied to it by C13); oracle harness/oracle_ref.py.',
+ ),
+ "C06": dict(
+  text=("ref_error_stops / ref_failure_is_error (a failure propagates unchanged and no further call is made; every failing branch yields an error state or a "
+        "raise with the action's / link's position) in Props/C06.lean as far as discharged, lifted to the implementation model by the C04 refinement; "
+        "correspondence: one injected failure of each kind at every position, outcome + reported position/query + call log vs the model; oracle: error state "
+        "or raise, call log is a subsequence of the reference interpreter's, reported offset points at an action or link. Known finding: positions inside "
+        "sub-evaluations refer to the originally parsed text."),
+  note='Trusted: Lean kernel; the hand-written evaluator model LiquerModel/Eval.lean + Vocab.lean + Value.lean and the reference interpretation Ref.lean (tied to Context.evaluate/evaluate_action/evaluate_parameter/apply, parse_argv and the argument parsers by differential correspondence over generated queries and histories, not proved about Python); command signatures regenerated from the live registry; vocabulary semantics written twice; the cache is the KV specification at evaluator states (back-ends tied to it by C13); oracle harness/oracle_ref.py.',
+ ),
+ "C09": dict(
+  text=("hit / second_run_silent / present_after (Props/C09.lean, one-level unfolding of the evaluator model: a cacheable result is stored under the canonical "
+        "key and the next evaluation returns it without executing a command); correspondence: (evaluate, re-evaluate, evaluate an extension) on a cold cache "
+        "of every admitting configuration vs the model incl. call logs; oracle: silent re-run, key present with the value, extension bounded by the "
+        "reference interpreter's calls right of the cached prefix."),
+  note='Trusted: Lean kernel; the hand-written evaluator model LiquerModel/Eval.lean + Vocab.lean + Value.lean and the reference interpretation Ref.lean (tied to Context.evaluate/evaluate_action/evaluate_parameter/apply, parse_argv and the argument parsers by differential correspondence over generated queries and histories, not proved about Python); command signatures regenerated from the live registry; vocabulary semantics written twice; the cache is the KV specification at evaluator states (back-ends tied to it by C13); oracle harness/oracle_ref.py.',
+ ),
+ "C13": dict(
+  text=("Spec lemmas on the KV specification for arbitrary key strings; refinement theorems for every history: memory, file (digest injective + codec law), SQL, "
+        "combinators, conditional wrappers, proxy; store-backed cache: point operations under PathsOK (keys()/clean() statement-only; nested scheme refuted on "
+        "confusable keys = known finding D19); xor_involutive and xor_hides. Correspondence: 14 configurations x histories over confusable keys and values of "
+        "every built-in type vs the model of each configuration; oracle: Python dict reference + scan of raw files of obfuscating caches."),
+  note=("Trusted: Lean kernel; LiquerModel/Cache*.lean mirrors (as fixed by D2, D8, D9, D9b, D17, D18 commits); md5 as an injective function; Fernet as a codec law; "
+        "sqlite as a list of rows; state-type codecs as parameters."),
+ ),
+ "C16": dict(
+  text=("For the step lists of store / store_metadata / remove of FileCache (+XOR, Fernet), FileStore and StoreCache on FileStore (as fixed by the D6a/D6b commits: "
+        "temporary file + atomic replace, metadata last): for every crash point and every prefix of every write, a fresh read yields miss, the old or the new "
+        "entry, and other keys are unaffected (16 theorems). Correspondence: every file-system operation boundary of the real operations is crashed in a "
+        "subprocess (os._exit) and a fresh process reads; exhaustive in both tiers. Partial: torn sectors, fsync/write-back ordering and directory-entry "
+        "durability are below the model."),
+  note=("Trusted: Lean kernel; LiquerModel/CrashSteps.lean step lists (tied by the crash replay); POSIX rename atomicity; the OS applies completed operations in order."),
+ ),
 }
